@@ -14,15 +14,14 @@ import PcbV.Model.VideoMem
     P:v                     OUT &H3CF,v  (EGA read plane)
     M:v                     OUT &H3C5,v  (EGA write plane mask)
     x:page:y:x0:n           n values of row y from x0 -> hex     (pixel attributes / text bytes)
+    X:name:np               SCREEN / WIDTH leading to mode `name` with np pages (switchMode)
+    Z:name:np               CLEAR ,,,n with a new size: forced rebuild as mode `name` with np pages (resetMode)
   old <mode name> <number of pages> walk:addr:n:f | get:addr:n | text:addr:n   the code before the repair, blank screen
 -/
 namespace PcbV.Drv.C34
 open PcbV PcbV.VideoMem PcbV.Gen.Modes
 
 def nats (fs : List String) : Option (List Nat) := fs.mapM String.toNat?
-
-def initScr (m : Mode) : Scr :=
-  if m.kind = 0 then fun _ _ x => if x % 2 = 0 then 32 else 7 else fun _ _ _ => 0
 
 def fillRect (s : Scr) (page : Int) (x0 y0 x1 y1 v : Nat) : Scr :=
   fun p y x => if p = page ∧ x0 ≤ x ∧ x ≤ x1 ∧ y0 ≤ y ∧ y ≤ y1 then v else s p y x
@@ -76,17 +75,27 @@ def step (m : Mode) (np : Nat) (s : St) (op : String) : Option (St × String) :=
     | _ => none
   | _ => none
 
-def runOps (m : Mode) (np : Nat) : St → List String → List String → String
+def runOps : Machine → List String → List String → String
   | _, [], acc => "ok " ++ joinWith ";" acc.reverse
-  | s, op :: ops, acc =>
-    match step m np s op with
-    | some (s', r) => runOps m np s' ops (r :: acc)
-    | none => "bad-op"
+  | mc, op :: ops, acc =>
+    match op.splitOn ":" with
+    | ["X", name, np] =>
+      match findMode name, np.toNat? with
+      | some m, some np => runOps (switchMode mc m np) ops ("-" :: acc)
+      | _, _ => "bad-op"
+    | ["Z", name, np] =>
+      match findMode name, np.toNat? with
+      | some m, some np => runOps (resetMode mc m np) ops ("-" :: acc)
+      | _, _ => "bad-op"
+    | _ =>
+      match step mc.mode mc.np mc.st op with
+      | some (s', r) => runOps { mc with st := s' } ops (r :: acc)
+      | none => "bad-op"
 
 def handle : List String → String
   | ["hist", name, np, ops] =>
     match findMode name, np.toNat? with
-    | some m, some np => runOps m np ⟨initScr m, 0, 255⟩ (ops.splitOn ";") []
+    | some m, some np => runOps ⟨m, np, initSt m⟩ (ops.splitOn ";") []
     | _, _ => "bad-op"
   | ["old", name, np, op] =>
     match findMode name, np.toNat? with
